@@ -77,7 +77,10 @@ def check_case(ctx, ds, lname, n, schemes, dataset_obj=None, alg_obj=None, origi
                               'an exception')
                 continue
             rk = c.consensus_rankings
-            _ = c.kemeny_score
+            try:
+                _ = c.kemeny_score   # the lazy score is written once; snapshots are taken after it
+            except Exception:
+                pass                 # a consensus that cannot be scored is reported by the structural checks below
             _lib.setdefault('earlier', EarlierResults()).check_and_remember(ctx, ('pick', reused), c, case)
             if len(rk) < 1 or (one and len(rk) != 1):
                 ctx.violation('pickaperm-number-of-rankings', case, len(rk), 1 if one else '>=1')
